@@ -3,6 +3,9 @@ import Ntrip.Proofs.SegmentRefine
 import Ntrip.Proofs.SegmentSpec
 import Ntrip.Generated.Skeletons
 import Ntrip.Properties.C05
+import Ntrip.Guards.Msm
+import Ntrip.Guards.Base
+import Ntrip.Guards.Framing
 /-!
 # C07 — no input can crash or hang framing, decoding or display
 
@@ -133,5 +136,14 @@ example : (getMessage crc24q (newState 0) [0xd3, 0x00, 0x02, 0x43, 0x50, 0x06, 0
     .msg { typ := 1077, raw := [0xd3, 0x00, 0x02, 0x43, 0x50, 0x06, 0xa2, 0x7e], err := .tsShort } := by
   decide +kernel
 example : decodeMsm .msm7 [0xd3, 0x00, 0x02, 0x43, 0x50, 0x06, 0xa2, 0x7e] = .err .headerShort := by decide +kernel
+
+/-- Tie T1: guards and loop headers of the modelled code, regenerated from the source. -/
+theorem tie_guards_msm : type_of% Ntrip.Guards.msm := Ntrip.Guards.msm
+
+/-- Tie T1: guards and loop headers of the modelled code, regenerated from the source. -/
+theorem tie_guards_base : type_of% Ntrip.Guards.base := Ntrip.Guards.base
+
+/-- Tie T1: guards and loop headers of the modelled code, regenerated from the source. -/
+theorem tie_guards_framing : type_of% Ntrip.Guards.framing := Ntrip.Guards.framing
 
 end Ntrip.C07
